@@ -448,7 +448,10 @@ pub fn enc_events(evs: &[GenericEvent<Pid>], v: &mut Vec<u64>) {
         match e {
             GenericEvent::RequestSendPacket { packet, release_packet_id_if_send_error } => {
                 v.push(0);
-                view(packet).enc(v);
+                // the size of a packet requested for sending is what goes on the wire, not what size() claims
+                let mut w = view(packet);
+                w.size = packet.to_continuous_buffer().len() as u64;
+                w.enc(v);
                 push_opt(v, release_packet_id_if_send_error.map(|x| x as u64));
             }
             GenericEvent::NotifyPacketReceived(p) => {
@@ -731,7 +734,10 @@ pub fn mk_ack(rng: &mut Rng, ver: u64, ty: u64, pid: u64) -> Option<Packet> {
             4 => {
                 let b = v5_0::GenericPuback::<Pid>::builder().packet_id(id);
                 if fail {
-                    b.reason_code(PubackReasonCode::UnspecifiedError).build().ok()?.into()
+                    // every failure code of the enum, not only the first
+                    b.reason_code(*rng.pick(&[PubackReasonCode::UnspecifiedError, PubackReasonCode::ImplementationSpecificError, PubackReasonCode::NotAuthorized,
+                        PubackReasonCode::TopicNameInvalid, PubackReasonCode::PacketIdentifierInUse, PubackReasonCode::QuotaExceeded,
+                        PubackReasonCode::PayloadFormatInvalid])).build().ok()?.into()
                 } else if explicit {
                     b.reason_code(if rng.chance(1, 2) { PubackReasonCode::Success } else { PubackReasonCode::NoMatchingSubscribers }).build().ok()?.into()
                 } else {
@@ -741,7 +747,9 @@ pub fn mk_ack(rng: &mut Rng, ver: u64, ty: u64, pid: u64) -> Option<Packet> {
             5 => {
                 let b = v5_0::GenericPubrec::<Pid>::builder().packet_id(id);
                 if fail {
-                    b.reason_code(PubrecReasonCode::UnspecifiedError).build().ok()?.into()
+                    b.reason_code(*rng.pick(&[PubrecReasonCode::UnspecifiedError, PubrecReasonCode::ImplementationSpecificError, PubrecReasonCode::NotAuthorized,
+                        PubrecReasonCode::TopicNameInvalid, PubrecReasonCode::PacketIdentifierInUse, PubrecReasonCode::QuotaExceeded,
+                        PubrecReasonCode::PayloadFormatInvalid])).build().ok()?.into()
                 } else if explicit {
                     // both success-class codes
                     b.reason_code(if rng.chance(1, 2) { PubrecReasonCode::Success } else { PubrecReasonCode::NoMatchingSubscribers }).build().ok()?.into()
